@@ -1400,6 +1400,9 @@ def v_summarize(t, kw, handles, mode):
     ctx = Ctx(t, handles, mode, "summarize")
     if not kw and not t.group:
         raise RefReject("ValueError", "summarize without group_by needs at least one column")
+    if any(g not in {i for _, i in t.vis} for g in t.group):
+        # a grouping column becomes a column of the result and needs a name (rejected like collect() does)
+        raise RefReject("ValueError", "summarize of a table grouped by a hidden column")
     groups = _group_rows(t)
     names = [n for n, _ in kw]
     new = RTable()
